@@ -1,5 +1,5 @@
 (* Properties_C16.v — a resolver reports exactly the valid addresses of its host. *)
-From QV Require Import Base Fields SrcFacts Msg SrcDecisions Cache Sim SimProofs Prober Resolver ResolverProofs ResolverInv CacheSpec CacheProofs ResolverAccept.
+From QV Require Import Base Fields SrcFacts Msg SrcDecisions Cache Sim SimProofs Prober Resolver ResolverProofs ResolverInv CacheSpec CacheProofs ResolverAccept ResolverFuel.
 Local Open Scope Z_scope.
 
 (* PARTIAL.  Proved on the model: the shape of the initial query, soundness of the reports caused by responses
@@ -95,6 +95,14 @@ Theorem C16_every_run_is_accepted fuel ops :
 Proof. exact (res_run_accepted fuel ops). Qed.
 Print Assumptions C16_every_run_is_accepted.
 
+(* the same with purely syntactic hypotheses: the kernel's fuel never runs out when it covers what the script can store
+   (W = 1 + |cache_multipliers| triggers per stored record, cache_multipliers regenerated from cache.cpp), because every
+   firing of the cache's timer consumes a trigger and the resolver's zero-delay timer fires once *)
+Theorem C16_every_run_is_accepted_when_the_fuel_covers_the_script fuel ops :
+  Forall rop_ok ops -> (W * weights ops + 3 <= fuel)%nat -> mon_resolver ops (res_run fuel ops) = None.
+Proof. exact (res_run_accepted_syntactic fuel ops). Qed.
+Print Assumptions C16_every_run_is_accepted_when_the_fuel_covers_the_script.
+
 (* the acceptor is not vacuous: it accepts the real run below and rejects the same run when the address received in
    the response is not reported, and when the cached address is reported twice *)
 Example C16_acceptor_discriminates :
@@ -103,16 +111,17 @@ Example C16_acceptor_discriminates :
   let resp := mkMessage (A4 9) 5353 0 true false [] [a 2%N; a 2%N] in
   let ops := [AApi (RCadd (a 1%N) 7); AApi (RNew h); AAdv 0; ADeliver resp] in
   let sig k := OSignal 0 OBJ SIG_resolved (PAddr (A4 k)) in
-  Forall rop_ok ops /\ no_fuel_exhaustion (res_run 50 ops) /\
+  Forall rop_ok ops /\ no_fuel_exhaustion (res_run 50 ops) /\ (W * weights ops + 3 <= 50)%nat /\
   concat (skipn 2 (res_run 50 ops)) = [sig 1%N; sig 2%N] /\
   mon_resolver ops (firstn 3 (res_run 50 ops) ++ [[]]) = Some (3%N, 2%N) /\
   mon_resolver ops (firstn 2 (res_run 50 ops) ++ [[sig 1%N; sig 1%N]; [sig 2%N]]) <> None.
 Proof.
-  cbv zeta. split; [|split; [|split; [|split]]].
+  cbv zeta. split; [|split; [|split; [|split; [|split]]]].
   - repeat apply Forall_cons; try apply Forall_nil; cbn [rop_ok]; try exact I; try discriminate.
     all: try (split; [unfold ttl_ok; vm_compute; discriminate|lia]).
     all: repeat apply Forall_cons; try apply Forall_nil; unfold ttl_ok; vm_compute; discriminate.
   - unfold no_fuel_exhaustion. vm_compute. intros [H|[H|[H|[]]]]; discriminate.
+  - vm_compute. lia.
   - vm_compute. reflexivity.
   - vm_compute. reflexivity.
   - vm_compute. discriminate.
